@@ -284,6 +284,18 @@ def replay(cases, workdir, env_extra=None, jobs=12, timeout_ms=10000, name="repl
         for f in futs:
             res.extend(f.result())
     by_id = {v["id"]: v for v in res}
+    # A replayer process that has compiled very many functions runs out of memory mappings (the engine never
+    # unmaps JIT code: known finding C07-jit-code-memory-never-released); what fails then is the PROCESS, not the
+    # case it happened to be at.  Such cases are run again in fresh processes, a few at a time.
+    exhausted = [c for c in cases if "unable to make memory readable+executable" in json.dumps(by_id.get(c["id"], {}).get("got", ""))
+                 or "unable to make memory readable+executable" in by_id.get(c["id"], {}).get("why", "")]
+    if exhausted and not name.endswith(".fresh"):
+        log(f"[replay] {name}: {len(exhausted)} cases hit the process's mapping limit; re-running them in fresh processes")
+        again = replay(exhausted, workdir, env_extra=env_extra, jobs=min(jobs, 4), timeout_ms=timeout_ms, name=name + ".fresh",
+                       binary=binary, isolate=len(exhausted) <= 40)
+        for v in again:
+            by_id[v["id"]] = v
+        res = list(by_id.values())
     log(f"[replay] {name}: {len(cases)} cases in {time.time()-t0:.1f}s, "
         f"{sum(1 for v in res if not v['pass'])} failing")
     return [by_id[c["id"]] for c in cases]
